@@ -97,6 +97,11 @@ def define (s : St) (i : Nat) (name : String) (v : RV) : St :=
     { s with scopes := s.scopes.set i { sc with vars := assocSet name v sc.vars } }
   else s
 
+/-- DefineValue for a list of bindings in scope `i`, in order -/
+def defineAll (s : St) (i : Nat) : List (String × RV) → St
+  | [] => s
+  | (n, v) :: rest => (s.define i n v).defineAll i rest
+
 /-- Walk the parent chain from scope `i` (fuel bounds the walk by the number of scopes). -/
 def lookupFrom (scopes : Array Scope) : Nat → Nat → String → Option (Nat × RV)
   | 0, _, _ => none
@@ -118,6 +123,18 @@ def setValue (s : St) (i : Nat) (name : String) (v : RV) : Option St :=
   match lookupFrom s.scopes (s.scopes.size + 1) i name with
   | some (j, _) => some (s.define j name v)
   | none => none
+
+/-- invokeLetExpr on an identifier: `if SetValue fails { DefineValue in the current scope }` -/
+def assign (s : St) (name : String) (v : RV) : St :=
+  match s.setValue s.cur name v with
+  | some s' => s'
+  | none => s.define s.cur name v
+
+/-- assignment to a member of module `id`: SetValue on that scope, an error when undefined -/
+def assignIn (s : St) (id : Nat) (name : String) (v : RV) : St :=
+  match s.setValue id name v with
+  | some s' => s'
+  | none => { s with rv := nilRV, err := some (.error ("undefined symbol '" ++ name ++ "'")) }
 
 def addClosure (s : St) (c : Closure) : Nat × St :=
   (s.closures.size, { s with closures := s.closures.push c })
